@@ -19,6 +19,8 @@ OpSpace ==
     \cup [op : {"close"}, h : Handles]
     \cup [op : {"readv"}, h : 0..1, len : 0..1]          \* handles 0,1 hold files/directories, handle 2 sockets:
     \cup [op : {"writev"}, h : 0..1, data : 0..1]        \* no transfer that could block forever on a socket
+    \cup [op : {"readfix"}, h : 0..1, buf : 0..1, len : 0..1]   \* read/write through a registered buffer
+    \cup [op : {"writefix"}, h : 0..1, buf : 0..1, data : 0..1]
     \cup [op : {"statx"}, name : Names]
     \cup [op : {"mkdirat"}, name : {2, 3, 4}]
     \cup [op : {"unlinkat"}, name : Names, rmdir : 0..1]
@@ -33,8 +35,10 @@ NamesOf(o) == (IF Has(o, "name") THEN {o.name} ELSE {}) \cup (IF Has(o, "name2")
 NameConflict(x, y) == x = y \/ {x, y} = {3, 4}
 \* handles alias names (a handle may be open on any file): whatever changes file content or size conflicts
 \* with whatever observes it, whichever handle or name either goes through
-Mutates(o) == o.op = "writev" \/ (o.op = "openat" /\ o.fl = 3)           \* fl 3 = O_RDWR|O_TRUNC
-Observes(o) == o.op \in {"readv", "statx"} \/ Mutates(o)
+Mutates(o) == o.op \in {"writev", "writefix"} \/ (o.op = "openat" /\ o.fl = 3)   \* fl 3 = O_RDWR|O_TRUNC
+Observes(o) == o.op \in {"readv", "readfix", "statx"} \/ Mutates(o)
+\* a registered buffer is used by at most one operation of a batch (the driver fills / reads it around the batch)
+BufClash(a, b) == Has(a, "buf") /\ Has(b, "buf") /\ a.buf = b.buf
 Conflict(a, b) ==
     \/ Has(a, "h") /\ Has(b, "h") /\ a.h = b.h
     \/ \E x \in NamesOf(a), y \in NamesOf(b) : NameConflict(x, y)
@@ -47,7 +51,7 @@ VARIABLES cur,      \* batch under construction (operations with link flags)
           done      \* closed batches
 \* (an operator with a parameter: TLC evaluates parameterless constant definitions eagerly in every mode)
 Pairs(S) == {<<WithLink(a, FALSE)>> : a \in S}
-         \cup {<<WithLink(a, TRUE), WithLink(b, FALSE)>> : a, b \in S}
+         \cup {<<WithLink(p[1], TRUE), WithLink(p[2], FALSE)>> : p \in {q \in S \X S : ~BufClash(q[1], q[2])}}
          \cup {<<WithLink(p[1], FALSE), WithLink(p[2], FALSE)>> : p \in {q \in S \X S : ~Conflict(q[1], q[2])}}
 
 Init == IF Mode = "pairs" THEN cur \in Pairs(OpSpace) /\ done = <<>>
@@ -62,6 +66,7 @@ Append1(o, l) ==
     /\ LET joins == cur # <<>> /\ cur[Len(cur)].link
            others == IF joins THEN EarlierGroups ELSE 1..Len(cur) IN
        \A k \in others : ~Conflict(cur[k], o)
+    /\ \A k \in 1..Len(cur) : ~BufClash(cur[k], o)
     /\ cur' = Append(cur, WithLink(o, l /\ Len(cur) + 1 < MaxBatch))
     /\ UNCHANGED done
 Close ==
